@@ -322,6 +322,17 @@ class HeaderPacketReceiver(Elaboratable):
         last_enable = Signal()
         m.d.ss     += last_enable.eq(self.enable)
 
+        # Remember that the link went down (or was reset) until our command FSM is back in its
+        # dispatch state; a link command that is being sent is finished first.
+        link_went_down    = (last_enable & ~self.enable) | self.usb_reset
+        restart_pending   = Signal()
+        seq_reset_pending = Signal()
+        with m.If(link_went_down):
+            m.d.ss += restart_pending.eq(1)
+        with m.If(self.usb_reset):
+            m.d.ss += seq_reset_pending.eq(1)
+        restart = restart_pending | link_went_down
+
         #
         # Header Packet Buffers
         #
@@ -376,7 +387,7 @@ class HeaderPacketReceiver(Elaboratable):
 
 
         # If we receive a valid packet, it's time for us to buffer it!
-        with m.If(rx.new_packet & ~ignore_packets):
+        with m.If(rx.new_packet & ~ignore_packets & self.enable & ~restart):
             m.d.ss += [
                 # Load our header packet into the next write buffer...
                 buffers[write_pointer]    .eq(rx.packet),
@@ -396,7 +407,7 @@ class HeaderPacketReceiver(Elaboratable):
 
         # If we receive a bad packet, we'll need to request that the other side re-send.
         # The rules for this are summarized in [USB3.2r1: 7.2.4.1.5], and in comments below.
-        with m.If(rx.bad_packet & ~ignore_packets):
+        with m.If(rx.bad_packet & ~ignore_packets & self.enable & ~restart):
 
 
             m.d.ss += [
@@ -463,7 +474,7 @@ class HeaderPacketReceiver(Elaboratable):
             # and then move to the state in which we'll send them.
             with m.State("DISPATCH_COMMAND"):
 
-                with m.If(self.enable):
+                with m.If(self.enable & ~restart):
                     # NOTE: the order below is important; changing it can easily break things:
                     # - ACKS must come before credits, as we must send an LGOOD before we send our initial credits.
                     # - LBAD must come after ACKs and credit management, as all scheduled ACKs need to be
@@ -496,8 +507,11 @@ class HeaderPacketReceiver(Elaboratable):
 
                 # Once we've become disabled, we'll want to prepare for our next enable.
                 # This means preparing for our advertisement, by:
-                with m.If((last_enable & ~self.enable) | self.usb_reset):
+                with m.If(restart):
                     m.d.ss += [
+                        restart_pending       .eq(0),
+                        seq_reset_pending     .eq(0),
+
                         # -Resetting our pending ACKs to 1, so we perform an sequence number advertisement
                         #  when we're next enabled.
                         acks_to_send          .eq(1),
@@ -524,7 +538,7 @@ class HeaderPacketReceiver(Elaboratable):
                     ]
 
                     # If this is a USB Reset, also reset our sequences.
-                    with m.If(self.usb_reset):
+                    with m.If(self.usb_reset | seq_reset_pending):
                         m.d.ss += [
                             expected_sequence_number  .eq(0),
                             next_header_to_ack        .eq(-1)
@@ -550,7 +564,7 @@ class HeaderPacketReceiver(Elaboratable):
                     m.d.ss   += next_header_to_ack  .eq(next_header_to_ack + 1)
 
                     # If this was the last ACK we had to send, move back to our dispatch state.
-                    with m.If(acks_to_send == 1):
+                    with m.If((acks_to_send == 1) | restart):
                         m.next = "DISPATCH_COMMAND"
 
 
@@ -572,7 +586,7 @@ class HeaderPacketReceiver(Elaboratable):
                     m.d.ss   += next_credit_to_issue  .eq(next_credit_to_issue + 1)
 
                     # If this was the last credit we had to issue, move back to our dispatch state.
-                    with m.If(credits_to_issue == 1):
+                    with m.If((credits_to_issue == 1) | restart):
                         m.next = "DISPATCH_COMMAND"
 
 
